@@ -270,7 +270,7 @@ def split_executions(path, reset_key="e", reset_val="Reset"):
 def validate_trace(module, cfg, trace_path, timeout=900, xmx="4g", deque=False, env=None):
     """TLC trace validation.  Returns (accepted, matched_lines, TlcResult)."""
     n = sum(1 for l in open(trace_path) if l.strip())
-    e = {"TRACE": trace_path}
+    e = {"TRACE": trace_path, "KNOWN": "0", "SKIPCOV": "0"}
     if env:
         e.update(env)
     r = tlc(module, cfg, workers=1, timeout=timeout, env=e, xmx=xmx, deque=deque)
@@ -504,3 +504,38 @@ def mc(rep, module, consts, name, invariants, view="View", actions=(), workers=N
     rep.extra.setdefault("constants", {})[name] = {k: (sorted(v) if isinstance(v, (set, frozenset)) else v) for k, v in consts.items()}
     log("[%s] %s: %d distinct / %d generated, depth %d, %.0fs" % (rep.prop, name, r.distinct, r.generated, r.depth, r.wall))
     return r
+
+
+def trace_leg_known(rep, module, cfg, trace, label, what, finding_id, env=None, chunks=None, timeout=3000):
+    """Like trace_leg, for a module that carries a named as-coded deviation (a known finding).  First a strict pass; if that
+    rejects anything, a second pass with KNOWN=1 accepts exactly the as-coded variant next to the correct one.  Rejections that
+    the deviation explains are reported as KNOWN-FINDING (if the finding is listed in known_findings.json); anything else is a
+    violation."""
+    workdir = os.path.join(BUILD, rep.prop)
+    env = dict(env or {})
+    nexec, nev, fails, nfail = validate_executions(module, cfg, trace, workdir, rep.prop, label=label, chunks=chunks or NCPU,
+                                                   timeout=timeout, env=dict(env, KNOWN="0"))
+    listed = [f for f in known_findings() if f.get("id") == finding_id and f.get("property") == rep.prop]
+    legs = rep.extra.setdefault("legs", {})
+    if nfail == 0:
+        log("[%s] %s: %d executions, %d events, 0 rejected (the listed finding %s no longer shows)" % (rep.prop, label, nexec, nev, finding_id))
+        rep.traces += nexec
+        legs[label] = {"executions": nexec, "events": nev, "rejected": 0, "what": what}
+    else:
+        nexec2, nev2, fails2, nfail2 = validate_executions(module, cfg, trace, workdir, rep.prop, label=label + "_known", chunks=chunks or NCPU,
+                                                           timeout=timeout, env=dict(env, KNOWN="1"))
+        legs[label] = {"executions": nexec, "events": nev, "rejected_strict": nfail, "rejected_with_named_deviation": nfail2, "what": what}
+        log("[%s] %s: %d executions, %d events, %d rejected strictly, %d rejected with the named deviation accepted" % (
+            rep.prop, label, nexec, nev, nfail, nfail2))
+        if nfail2 == 0 and listed:
+            rep.known_finding(finding_id, listed[0]["what"])
+            rep.traces += nexec - nfail
+        else:
+            for f in (fails2 if nfail2 else fails):
+                rep.violation("%s: rejected after %d events; next event %s %s" % (what, f["matched"], f["next_event"], f["detail"]), f["replay"])
+            if not (fails2 if nfail2 else fails):
+                raise Infra("%s: rejections did not repeat when re-run alone" % label)
+    with open(trace) as f:
+        evs = [json.loads(next(f)) for _ in range(3)]
+    rep.sample({"leg": label, "events": evs})
+    os.remove(trace)
